@@ -3,8 +3,8 @@ import hashlib
 
 from .core import exc_class, hx, unhx
 from .gitobj_common import (LEGACY_DATE_MODES, author_line_spec, date_dict, date_dict_legacy, enc_date, enc_opt, gen_bytes,
-                            gen_bytes_wide, gen_date_wide, gen_fullname_wide, gen_id, mk_person, mk_tstz, nofullname_split,
-                            person_dict)
+                            gen_bytes_wide, gen_date_wide, gen_fullname_wide, gen_id, mk_person, mk_person_from_fullname, mk_tstz,
+                            nofullname_split, person_dict, BytesSub)
 
 ID = "C03"
 PROPS = "Props/C03.v"
@@ -247,17 +247,18 @@ def _kwargs(c, variant=0, legacy=None):
         shape = "tt"
     md = None
     if meta is not None:
-        md = {"extra_headers": _shape(_pairs(meta), "ll" if shape in ("gen", "tt") else shape)}
+        md = {"extra_headers": _shape(_pairs(meta), "ll" if shape == "gen" else shape)}
     if variant == 1:
         md = dict(md or {}, **VMD_POOL[c.get("vmd", 0)](bytes.fromhex(c.get("vmd_val", ""))))
         if c.get("vmd", 0) % 2:
             from swh.model.collections import ImmutableDict
             md = ImmutableDict(md)
-    author, date = mk_person(c["author"], variant), mk_tstz(c["date"])
+    mkp = mk_person_from_fullname if (variant == 1 and c.get("vmd", 0) % 3 == 2) else (lambda h: mk_person(h, variant))
+    author, date = mkp(c["author"]), mk_tstz(c["date"])
     if c.get("share") and c["committer"] is not None and c["committer"] == c["author"]:
         committer, committer_date = author, (date if c["committer_date"] == c["date"] else mk_tstz(c["committer_date"]))
     else:
-        committer, committer_date = mk_person(c["committer"], variant), mk_tstz(c["committer_date"])
+        committer, committer_date = mkp(c["committer"]), mk_tstz(c["committer_date"])
     return dict(message=None if c["message"] is None else bytes.fromhex(c["message"]),
                 author=author, committer=committer, date=date, committer_date=committer_date,
                 type=RevisionType.GIT if variant == 0 else RevisionType(c.get("vtype", "hg")),
@@ -375,6 +376,20 @@ def _wide_routes(c, r, res):
 def _routes_shapes(c, r, d, pairs, same_id, route):
     from swh.model.model import Revision
     route(same_id, "from_dict, the same dict a second time", lambda: Revision.from_dict(d).id.hex())
+    def sub_kwargs():
+        from swh.model.model import Person, TimestampWithTimezone
+        kw = _kwargs(c)
+        for k in ("message", "directory"):
+            kw[k] = None if kw[k] is None else BytesSub(kw[k])
+        kw["parents"] = tuple(BytesSub(p) for p in kw["parents"])
+        for k in ("author", "committer"):
+            if kw[k] is not None:
+                kw[k] = Person(fullname=BytesSub(kw[k].fullname), name=None, email=None)
+        for k in ("date", "committer_date"):
+            if kw[k] is not None:
+                kw[k] = TimestampWithTimezone(timestamp=kw[k].timestamp, offset_bytes=BytesSub(kw[k].offset_bytes))
+        return kw
+    route(same_id, "constructor, values of a bytes subclass", lambda: Revision(**sub_kwargs()).id.hex())
     route(same_id, "from_dict with tuples", lambda: Revision.from_dict(
         dict(d, parents=tuple(d["parents"]), extra_headers=tuple((k, v) for k, v in pairs))).id.hex())
     route(same_id, "from_dict with one-shot iterators", lambda: Revision.from_dict(
@@ -640,7 +655,14 @@ ANCHORS = [('swh/model/git_objects.py', 'revision_git_object'),
            ('swh/model/model.py', 'Revision.__attrs_post_init__'),
            ('swh/model/model.py', 'Revision.check_author'),
            ('swh/model/model.py', 'Revision.check_committer'),
-           ('swh/model/model.py', 'tuplify_extra_headers')]
+           ('swh/model/model.py', 'tuplify_extra_headers'),
+           ('swh/model/model.py', 'Revision.from_dict'),
+           ('swh/model/model.py', 'Person.from_dict'),
+           ('swh/model/model.py', 'HashableObjectWithManifest.compute_hash'),
+           ('swh/model/model.py', 'HashableObjectWithManifest.check'),
+           ('swh/model/model.py', 'BaseHashableModel.check'),
+           ('swh/model/model.py', 'BaseHashableModel.evolve'),
+           ('swh/model/model.py', 'BaseHashableModel.__attrs_post_init__')]
 
 
 def pre_checks(ctx):
